@@ -63,6 +63,28 @@ class ReplayMismatch(Exception):
     pass
 
 
+class NonTermination(BaseException):
+    """raised inside fn by time_capped when its CPU budget is used up"""
+
+
+def time_capped(fn, seconds, *a, **k):
+    """outcome(fn) under a CPU-time cap (ITIMER_VIRTUAL): Raised(NonTermination) when the cap is hit.
+    Used for termination obligations; the cap is orders of magnitude above the cost of the bounded inputs."""
+    import signal
+
+    def _h(signum, frame):
+        raise NonTermination("no result within %ss of CPU time" % seconds)
+    old = signal.signal(signal.SIGVTALRM, _h)
+    signal.setitimer(signal.ITIMER_VIRTUAL, seconds)
+    try:
+        return outcome(fn, *a, **k)
+    except NonTermination as e:          # BaseException: the code under test cannot swallow it
+        return Raised(e)
+    finally:
+        signal.setitimer(signal.ITIMER_VIRTUAL, 0)
+        signal.signal(signal.SIGVTALRM, old)
+
+
 # ---------------------------------------------------------------------------------------------
 def _is_private(k):
     return isinstance(k, str) and k.startswith("_")
